@@ -156,10 +156,21 @@ def combine(a, b):
     return "unknown"
 
 
+class _TagList(list):
+    """list of (tag, region) that also remembers the controlling edge of each entry in .edges (same order)."""
+    def __init__(self):
+        super().__init__()
+        self.edges = []
+
+    def add(self, b, tag, edge):
+        self.append((tag, b.edge_region(edge)))
+        self.edges.append((tag, edge))
+
+
 def region_tags(crate, b, inner):
-    """List of (tag, region) for regions of b controlled by the inner call's result."""
+    """List of (tag, region) for regions of b controlled by the inner call's result (edges in .edges)."""
     inner_bbs = {c.bb for c in inner}
-    out = []
+    out = _TagList()
 
     def from_inner(sl):
         return any(c.bb in inner_bbs for c in sl.calls)
@@ -168,8 +179,8 @@ def region_tags(crate, b, inner):
         if from_inner(b.slice_args(c, [0])):
             e = K.try_edges(b, c)
             if e:
-                out.append(("ok", b.edge_region((e[0], e[1]))))
-                out.append(("err", b.edge_region((e[0], e[2]))))
+                out.add(b, "ok", (e[0], e[1]))
+                out.add(b, "err", (e[0], e[2]))
     for sb, t, pl, d in K.discr_switches(b):
         if not from_inner(b.slice(pl, at=sb)):
             continue
@@ -180,7 +191,7 @@ def region_tags(crate, b, inner):
             continue
         for tgt, vs in K.edge_variants(crate, t, head).items():
             if len(vs) == 1:
-                out.append((tagmap[next(iter(vs))], b.edge_region((sb, tgt))))
+                out.add(b, tagmap[next(iter(vs))], (sb, tgt))
     for sb, t in b.switches():
         sl = b.slice(t["op"], at=sb)
         if not from_inner(sl):
@@ -189,14 +200,14 @@ def region_tags(crate, b, inner):
         if not z:
             continue
         if sl.has_call(r"std::option::Option::<T>::is_some"):
-            out.append(("some", b.edge_region((sb, t["otherwise"]))))
-            out.append(("none", b.edge_region((sb, z[0]))))
+            out.add(b, "some", (sb, t["otherwise"]))
+            out.add(b, "none", (sb, z[0]))
         elif sl.has_call(r"std::option::Option::<T>::is_none"):
-            out.append(("none", b.edge_region((sb, t["otherwise"]))))
-            out.append(("some", b.edge_region((sb, z[0]))))
+            out.add(b, "none", (sb, t["otherwise"]))
+            out.add(b, "some", (sb, z[0]))
         elif sl.has_call(r"std::result::Result::<T, E>::is_ok"):
-            out.append(("ok", b.edge_region((sb, t["otherwise"]))))
-            out.append(("err", b.edge_region((sb, z[0]))))
+            out.add(b, "ok", (sb, t["otherwise"]))
+            out.add(b, "err", (sb, z[0]))
     return out
 
 
@@ -379,9 +390,40 @@ def check_identity_closure(ctx, crate, m, cb, rule, key, depth):
             check_identity_closure(ctx, crate, m, cb2, rule, key, depth + 1)
 
 
+FAILURE_OF = {"some": ("none",), "ok": ("err",), "ready": ("pending", "err")}
+
+
+def rule_effect_exact(ctx, crate, m, tr, name, effs, rule="R-WRAP-EFFECT"):
+    """"advances by exactly the number transferred": a counting effect placed on the success side of the wrapped call's
+    result must be executed on EVERY path on which the result is a success — no further condition (bar finished, hidden,
+    ...) may skip it. Paths are those of the method with all failure edges of tests on the wrapped result removed."""
+    cfg = crate.config
+    key = "%s::%s" % (tr, name)
+    inner = inner_calls(m)
+    if len(inner) != 1:
+        return
+    regs = region_tags(crate, m, inner)
+    for kind in ("inc", "set_position"):
+        es = [(loc, e) for k, loc, amt, e in effs if k == kind and e.body is m and loc in FAILURE_OF]
+        if not es:
+            continue
+        loc = es[0][0]
+        avoid = [edge for tag, edge in regs.edges if tag in ("none", "err", "pending")]
+        start = m.term(inner[0].bb).get("t")
+        if start is None:
+            continue
+        eff_bbs = {e.bb for l, e in es}
+        escaped = set(m.reach([start], avoid=eff_bbs, avoid_edges=avoid)) & set(m.return_blocks())
+        ctx.check(not escaped, rule, key + ":counts-every-success", m.name, es[0][1].loc(),
+                  "every path on which the wrapped call succeeded executes the %s" % kind,
+                  "a transferred item/byte count can go uncounted: a path on which the wrapped %s succeeded returns without %s "
+                  "(an extra condition guards the counting)" % (name, kind), cfg)
+
+
 def rule_effect(ctx, crate, m, tr, name, effs, rule="R-WRAP-EFFECT"):
     cfg = crate.config
     key = "%s::%s" % (tr, name)
+    rule_effect_exact(ctx, crate, m, tr, name, effs, rule)
     want = SPEC.get((tr, name))
     if want is None:
         ctx.bad(rule, key + ":unlisted", m.name, K.fn_loc(m), "wrapper method %s has no row in the effect table (new adaptor method: its counting is unchecked)" % key, cfg)
